@@ -42,7 +42,7 @@ CODES = {
 
 RULE = ("controlled: random operation sequences (RunTask, RunAsyncTask and RunLimitedAsyncTask with wait true/false, each with the "
         "background context or a WithCancelOn* context that is live, already cancelled, or cancelled while the call waits for its slot, on 2 semaphores, a chosen running body returns or PANICS (Stopper built with OnPanic), "
-        "RunWorker, a worker returns or panics, "
+        "RunWorker, a worker returns or panics, a task or worker body calls Stop itself before it returns (once a Stop call has been made), "
         "AddCloser, WithCancelOnQuiesce/Stop, call of a returned cancel function, Stop and Quiesce called with the background context "
         "or a WithCancelOn* context that is live, already cancelled or cancelled while they wait; several Stop/Quiesce per "
         "sequence), total length <= 25 (thorough 40) including a closing tail that releases everything and calls Stop; "
@@ -52,7 +52,9 @@ RULE = ("controlled: random operation sequences (RunTask, RunAsyncTask and RunLi
         "calls (about 1 body in 7 panics) with random pauses and NumTasks()==0 probes racing with 1-3 Stop and 0-1 Quiesce calls, "
         "built with -race, judged by the oracle only; one history in three is a 'storm' (128-511 WithCancelOnQuiesce contexts, 1-2 "
         "goroutines calling RunTask back to back from just before the first Stop/Quiesce until refused, bodies that linger when "
-        "they find ShouldQuiesce closed: a call let in after quiescing was set slips past the drain and is seen running after stop); "
+        "they find ShouldQuiesce closed: a call let in after quiescing was set slips past the drain and is seen running after stop), "
+        "one ordinary history in four a 'flood' (3000-5999 WithCancelOnStop contexts and 1-2 workers that read 40 of them right after "
+        "<-ShouldStop()); bodies that react to ShouldQuiesce / ShouldStop by calling Stop themselves; "
         "non-trivial = at least 20 events; distinct by event history.")
 
 
